@@ -39,6 +39,7 @@ fn main() {
             }
         });
     }
+    let mut bad_cases = 0;
     for case in 0..count {
         progress.store(case, std::sync::atomic::Ordering::SeqCst);
         let mut crng = rng.fork();
@@ -99,11 +100,19 @@ fn main() {
             }
         }
         text.push_str("--\n");
+        if winners != 1 || once_msgs != callers - 1 || !same || !pre_ok {
+            bad_cases += 1;
+        }
         {
             use std::io::Write as _;
             let mut f = std::fs::OpenOptions::new().append(true).open(out).unwrap();
             f.write_all(text.as_bytes()).unwrap();
             text.clear();
+        }
+        // a broken once-guard makes every racing case slow (double executions, torn-down runs): a
+        // handful of failing cases is enough for the verdict
+        if bad_cases >= 5 {
+            break;
         }
     }
 }
